@@ -149,6 +149,7 @@ type Machine struct {
 	tl           *threadLayer
 	ranges map[*sym.Term]urange
 	marshalled map[string]marshalRec
+	tokenSeq   int
 
 	// tables
 	intrinsics map[string]intrinsic
@@ -292,6 +293,7 @@ func (m *Machine) RunPath(entry *ssa.Function, item workItem) (res *PathResult) 
 	m.depth = 0
 	m.ranges = nil
 	m.marshalled = nil
+	m.tokenSeq = 0
 	m.res = &PathResult{}
 	res = m.res
 	m.slv.Reset()
